@@ -77,6 +77,10 @@ func (d *gdriver) sendEdge(id, parent string, pts data.Points) (string, error) {
 
 func (d *gdriver) somePoints(n int) data.Points {
 	types := []string{"description", "value", "a", "b", "units", "ab"}
+	if d.r.Chance(0.15) {
+		// point types other parts of the application give a meaning to
+		types = []string{"pass", "email", "token", "disabled", "error", "active", "description", "value"}
+	}
 	keys := []string{"", "0", "1", "k"}
 	pts := make(data.Points, n)
 	for i := range pts {
